@@ -63,16 +63,13 @@ func New(ctx py.Context) *REPL {
 func (r *REPL) SetUI(term UI) {
 	r.term = term
 	r.term.SetPrompt(NormalPrompt)
+	// Expression statements run in this REPL's context echo to its UI
+	// (set per context so that REPLs on other contexts are unaffected)
+	vm.SetPrintExpr(r.Context, term.Print)
 }
 
 // Run runs a single line of the REPL
 func (r *REPL) Run(line string) error {
-	// Override the PrintExpr output temporarily
-	oldPrintExpr := vm.PrintExpr
-	vm.PrintExpr = r.term.Print
-	defer func() {
-		vm.PrintExpr = oldPrintExpr
-	}()
 	if r.continuation {
 		if line != "" {
 			r.previous += string(line) + "\n"
